@@ -6,6 +6,7 @@ package main
 
 import (
 	"bytes"
+	"context"
 	"crypto/tls"
 	"crypto/x509"
 	"encoding/json"
@@ -16,6 +17,7 @@ import (
 	"os"
 	"sync"
 	"sync/atomic"
+	"syscall"
 	"time"
 
 	"github.com/saucelabs/forwarder/internal/martian/h2"
@@ -102,18 +104,28 @@ func (s *h2Scenario) silence(d time.Duration, max time.Duration) {
 }
 
 // setupRelay starts the real relay between a raw client and a raw TLS server endpoint.
-func setupRelay(ca *harnessCA, cert tls.Certificate) (client, server *h2End, closing chan bool, done chan error, err error) {
+func setupRelay(ca *harnessCA, cert tls.Certificate, tight ...bool) (client, server *h2End, closing chan bool, done chan error, err error) {
 	sln, err := tls.Listen("tcp", "127.0.0.1:0", &tls.Config{Certificates: []tls.Certificate{cert}, NextProtos: []string{"h2"}})
 	if err != nil {
 		return nil, nil, nil, nil, err
 	}
 	defer sln.Close()
-	cln, err := net.Listen("tcp", "127.0.0.1:0")
+	// tight: small socket buffers between the relay and the client, set before the connection exists (the window that has
+	// been advertised once is not taken back): a client that stops reading soon blocks the relay's writer
+	small := func(opt int) func(network, address string, c syscall.RawConn) error {
+		return func(network, address string, c syscall.RawConn) error {
+			if len(tight) == 0 || !tight[0] {
+				return nil
+			}
+			return c.Control(func(fd uintptr) { syscall.SetsockoptInt(int(fd), syscall.SOL_SOCKET, opt, 4096) })
+		}
+	}
+	cln, err := (&net.ListenConfig{Control: small(syscall.SO_SNDBUF)}).Listen(context.Background(), "tcp", "127.0.0.1:0")
 	if err != nil {
 		return nil, nil, nil, nil, err
 	}
 	defer cln.Close()
-	cc, err := net.Dial("tcp", cln.Addr().String())
+	cc, err := (&net.Dialer{Control: small(syscall.SO_RCVBUF)}).Dial("tcp", cln.Addr().String())
 	if err != nil {
 		return nil, nil, nil, nil, err
 	}
@@ -254,7 +266,11 @@ func h2Run(e *env) {
 func h2Scenario1(seed int64, idx int, dir string, acts []h2Act, ca *harnessCA, cert tls.Certificate) (map[string]any, []map[string]any) {
 	res := map[string]any{"ok": true, "idx": idx, "dir": dir, "actions": acts}
 	sc := &h2Scenario{last: time.Now()}
-	client, server, closing, done, err := setupRelay(ca, cert)
+	tight := false
+	for _, a := range acts {
+		tight = tight || a.A == "bpause"
+	}
+	client, server, closing, done, err := setupRelay(ca, cert, tight)
 	if err != nil {
 		fatal("relay setup: %v", err)
 	}
@@ -274,7 +290,21 @@ func h2Scenario1(seed int64, idx int, dir string, acts []h2Act, ca *harnessCA, c
 	// ---- B: receives relayed frames, keeps its own ledger
 	grantS := map[uint32]int{1: 65535, 3: 65535}
 	grantC := 65535
-	initWin := 65535
+	// the initial window B holds the sender to: that of its last acknowledged SETTINGS, or a larger one announced since
+	// (H2Relay.tla BInit): a lowered window binds from the acknowledgement on, a raised one at once
+	ackedWin := 65535
+	var pendWin []int // SETTINGS sent and not yet acknowledged: the initial window each announces, -1 for none
+	enforced := func() int {
+		e := ackedWin
+		for _, v := range pendWin {
+			if v > e {
+				e = v
+			}
+		}
+		return e
+	}
+	var bPaused atomic.Bool // B leaves what arrives in its socket for a while
+	var bSlow atomic.Int64  // ... and then takes this many frames at a leisurely pace
 	maxFrame := uint32(16384)
 	var aMaxFrame, aInitWin atomic.Int64
 	aMaxFrame.Store(16384)
@@ -293,6 +323,13 @@ func h2Scenario1(seed int64, idx int, dir string, acts []h2Act, ca *harnessCA, c
 		var hs uint32
 		var hes bool
 		for {
+			for bPaused.Load() {
+				time.Sleep(5 * time.Millisecond)
+			}
+			if bSlow.Load() > 0 {
+				bSlow.Add(-1)
+				time.Sleep(15 * time.Millisecond)
+			}
 			f, err := B.fr.ReadFrame()
 			if err != nil {
 				return
@@ -378,6 +415,20 @@ func h2Scenario1(seed int64, idx int, dir string, acts []h2Act, ca *harnessCA, c
 			case *http2.SettingsFrame:
 				// the sender's SETTINGS frames reach the receiver, which acknowledges them; so do acknowledgements
 				if f.IsAck() {
+					bmu.Lock()
+					if len(pendWin) > 0 {
+						old := enforced()
+						if pendWin[0] >= 0 {
+							ackedWin = pendWin[0]
+						}
+						pendWin = pendWin[1:]
+						if d := enforced() - old; d != 0 {
+							for s := range grantS {
+								grantS[s] += d
+							}
+						}
+					}
+					bmu.Unlock()
 					sc.log("b_ack")
 				} else {
 					sc.log("b_settings")
@@ -643,6 +694,12 @@ func h2Scenario1(seed int64, idx int, dir string, acts []h2Act, ca *harnessCA, c
 			A.wmu.Lock()
 			err = A.conn.Close()
 			A.wmu.Unlock()
+		case "bpause":
+			// the receiver stops reading: what the relay writes piles up in the socket and in the relay's output channel
+			bPaused.Store(true)
+		case "bresume":
+			bSlow.Store(64)
+			bPaused.Store(false)
 		case "bping":
 			// the receiver sends PING frames (keep-alive) that the relay has to pass on to the sender - which may be gone
 			// (the first write to a connection the peer has closed still succeeds, the second one fails)
@@ -673,13 +730,14 @@ func h2Scenario1(seed int64, idx int, dir string, acts []h2Act, ca *harnessCA, c
 				err = B.fr.WriteWindowUpdate(a.S, a.V)
 				B.wmu.Unlock()
 			case "SI":
-				// a window-lowering SETTINGS is only sent at quiescence (DESIGN.md C09)
 				sc.silence(80*time.Millisecond, time.Second)
 				bmu.Lock()
-				d := int(a.V) - initWin
-				initWin = int(a.V)
-				for s := range grantS {
-					grantS[s] += d
+				old := enforced()
+				pendWin = append(pendWin, int(a.V))
+				if d := enforced() - old; d != 0 { // raised: in force at once; lowered: from the acknowledgement on
+					for s := range grantS {
+						grantS[s] += d
+					}
 				}
 				bmu.Unlock()
 				sc.log("b_ctl", "t", "SI", "s", 0, "v", int(a.V))
@@ -687,6 +745,9 @@ func h2Scenario1(seed int64, idx int, dir string, acts []h2Act, ca *harnessCA, c
 				err = B.fr.WriteSettings(http2.Setting{ID: http2.SettingInitialWindowSize, Val: a.V})
 				B.wmu.Unlock()
 			case "SE":
+				bmu.Lock()
+				pendWin = append(pendWin, -1)
+				bmu.Unlock()
 				sc.log("b_ctl", "t", "SE", "s", 0, "v", 0)
 				B.wmu.Lock()
 				err = B.fr.WriteSettings()
@@ -695,6 +756,7 @@ func h2Scenario1(seed int64, idx int, dir string, acts []h2Act, ca *harnessCA, c
 				sc.silence(80*time.Millisecond, time.Second)
 				bmu.Lock()
 				maxFrame = a.V
+				pendWin = append(pendWin, -1)
 				bmu.Unlock()
 				sc.log("b_ctl", "t", "SM", "s", 0, "v", int(a.V))
 				B.wmu.Lock()
@@ -727,7 +789,12 @@ func h2Scenario1(seed int64, idx int, dir string, acts []h2Act, ca *harnessCA, c
 		A.wmu.Unlock()
 		flushAcks()
 	}
-	sc.silence(150*time.Millisecond, 3*time.Second)
+	if tight {
+		// (small socket buffers: delayed acknowledgements make pauses of their own)
+		sc.silence(time.Second, 10*time.Second)
+	} else {
+		sc.silence(150*time.Millisecond, 3*time.Second)
+	}
 	sc.log("quiet")
 	// after a PUSH_PROMISE that was completed by CONTINUATION: is the direction still there? (a probe after "quiet",
 	// outside the trace: a PING, which waits for no window)
